@@ -406,7 +406,7 @@ def variants(rng, base, sid0, thresholds, rals, classes):
 def run_c10(ctx, binary):
     th = ctx.thorough()
     bg = Background(ctx, lambda c: (
-        exhaustive(c, consts(2, 1 if th else 2, 1, 6 if th else 5, 2, 0, False, False, "{0, 60}" if th else "{0, 60, 100000}", "{FALSE}"), "C10"),
+        exhaustive(c, consts(2, 1 if th else 2, 1, 6 if th else 5, 2, 0, False, False, "{0, 60, 100000}", "{FALSE}"), "C10"),
         {"nl_name": reachable(c, consts(2, 1, 1, 4, 2, 0, False, False, "{100000}", "{FALSE}", evil="{2}"),
                               "NoC10rejoin", "C10 newline name")}))
     num, depth = (400, 40) if th else (48, 36)
@@ -437,7 +437,7 @@ def run_c10(ctx, binary):
            "shutdown+restart) executed on the real Snapshotter under minCompactSize 0/300/128K with the same concrete names; "
            "every restart state is compared by TLC with the state the inputs imply; distinct = distinct (history, threshold, "
            "name class)",
-           {"model_constants": ("exhaustive: 2 names x 1 address, times 0..1, <=6 inputs, 2 sessions, thresholds {0,60}" if th else
+           {"model_constants": ("exhaustive: 2 names x 1 address, times 0..1, <=6 inputs, 2 sessions, thresholds {0,60,never}" if th else
                                 "exhaustive: 2 names x 2 addresses, times 0..1, <=5 inputs, 2 sessions, thresholds {0,60,never}") +
                                " with 40 bytes/node; simulation: 3 names x 3 addresses, times 0..6 (0..24 with the appended inputs) mapped "
                                "to 64-bit values",
